@@ -2,5 +2,6 @@ SPECIFICATION Spec
 CONSTANTS
   Versions <- VersionsAll
   MaxLen = 3
-INVARIANTS Coherent OnlyNeeded Emit
+  CacheKey = "object"
+INVARIANTS Coherent OnlyNeeded EmitPool Emit
 CHECK_DEADLOCK FALSE
